@@ -2,6 +2,7 @@ package props
 
 import (
 	"fmt"
+	"go/token"
 	"strings"
 
 	"golang.org/x/tools/go/ssa"
@@ -20,13 +21,15 @@ func init() {
 			{Name: "remove-validate", File: "pkg/resource/value.go", Old: "\tif err := writer.Validate(value); err != nil {\n\t\treturn nil, err\n\t}\n", New: "", Expect: "R05.1"},
 			{Name: "other-updater", File: "pkg/resource/collection.go", Old: "\t\twriteRequest.changeFn(writer, msg),", New: "\t\twriteRequest.changeFn(writeRequest.fieldUpdater(nil), msg),", Expect: "R05.1"},
 			{Name: "readonly-as-internal", File: "pkg/masks/update.go", Old: "return status.Errorf(codes.InvalidArgument, \"%v mentions read-only fields\", f.updateMaskFieldName)", New: "return status.Errorf(codes.Internal, \"%v mentions read-only fields\", f.updateMaskFieldName)", Expect: "R05.2"},
-			{Name: "readonly-not-checked", File: "pkg/masks/update.go", Old: "if len(common.Paths) != len(f.updateMask.Paths) {", New: "if len(common.Paths) > len(f.updateMask.Paths) {", Expect: "R05.2"},
+			{Name: "readonly-not-checked", File: "pkg/masks/update.go", Old: "\t\t\t\tif !overlapsAny(path, f.writableFields.Paths) {", New: "\t\t\t\tif !overlapsAny(path, f.updateMask.Paths) {", Expect: "R05.2"},
+			{Name: "revert-F30-count-heuristic", File: "pkg/masks/update.go", Old: "\t\t\tfor _, path := range f.updateMask.Paths {\n\t\t\t\tif !overlapsAny(path, f.writableFields.Paths) {\n\t\t\t\t\treturn status.Errorf(codes.InvalidArgument, \"%v mentions read-only fields\", f.updateMaskFieldName)\n\t\t\t\t}\n\t\t\t}\n", New: "\t\t\tcommon := f.fullMask()\n\t\t\tif len(common.Paths) != len(f.updateMask.Paths) {\n\t\t\t\treturn status.Errorf(codes.InvalidArgument, \"%v mentions read-only fields\", f.updateMaskFieldName)\n\t\t\t}\n", Expect: "R05.2"},
+			{Name: "revert-F29-clear-whole-parent", File: "pkg/masks/update.go", Old: "\t\t\tif len(fieldMask) == 0 {\n\t\t\t\t// the mask names the whole field\n\t\t\t\tdstPr.Clear(d)\n\t\t\t} else if", New: "\t\t\tif true {\n\t\t\t\tdstPr.Clear(d)\n\t\t\t} else if", Expect: "R05.5"},
 			{Name: "ignore-more-writable", File: "pkg/resource/opt.go", Old: "fields := fieldmaskpb.Union(writableFields, wr.moreWritableFields)", New: "fields := fieldmaskpb.Union(writableFields, writableFields)", Expect: "R05.3"},
 			{Name: "merge-before-filter", File: "pkg/masks/update.go", Old: "\tnestedMask.Filter(src)\n\tproto.Merge(dst, src)\n", New: "\tproto.Merge(dst, src)\n\tnestedMask.Filter(src)\n", Expect: "R05.4"},
 			{Name: "reset-before-merge", File: "pkg/masks/update.go", Old: "\tproto.Merge(dst, src)\n\n\t// if a field mentioned by the mask is nil, we should clear it\n\tpruneEmpty(dst, src, nestedMask)\n\n\tif f.resetMask != nil {\n\t\tfmutils.Prune(dst, f.resetMask.Paths)\n\t}\n",
 				New: "\tif f.resetMask != nil {\n\t\tfmutils.Prune(dst, f.resetMask.Paths)\n\t}\n\tproto.Merge(dst, src)\n\n\tpruneEmpty(dst, src, nestedMask)\n", Expect: "R05.4"},
 			{Name: "reset-with-mask", File: "pkg/masks/update.go", Old: "\tmask := f.updateMask\n\tif mask == nil {\n", New: "\tmask := f.updateMask\n\tif mask == nil || len(mask.GetPaths()) > 1 {\n", Expect: "R05.4"},
-			{Name: "prune-stops-early", File: "pkg/masks/update.go", Old: "\t\tif !srcPr.Has(d) {\n\t\t\tdstPr.Clear(d)\n\t\t\treturn true\n\t\t}", New: "\t\tif !srcPr.Has(d) {\n\t\t\tdstPr.Clear(d)\n\t\t\treturn false\n\t\t}", Expect: "R05.5"},
+			{Name: "prune-stops-early", File: "pkg/masks/update.go", Old: "\t\t\t\tfieldMask.Prune(dstPr.Get(d).Message().Interface())\n\t\t\t}\n\t\t\treturn true", New: "\t\t\t\tfieldMask.Prune(dstPr.Get(d).Message().Interface())\n\t\t\t}\n\t\t\treturn false", Expect: "R05.5"},
 			{Name: "validate-twice", Silent: true, File: "pkg/resource/value.go", Old: "\tif err := writer.Validate(value); err != nil {\n\t\treturn nil, err\n\t}\n", New: "\tif err := writer.Validate(value); err != nil {\n\t\treturn nil, err\n\t}\n\tif err := writer.Validate(value); err != nil {\n\t\treturn nil, err\n\t}\n"},
 		},
 	})
@@ -142,71 +145,140 @@ func r052(c *an.Ctx) {
 		return
 	}
 	name := "(*pkg/masks.FieldUpdater).Validate"
-	names := map[ssa.Value]string{fn.Params[0]: "f", fn.Params[1]: "m"}
-	leaves := an.DecisionTree(fn, an.DTConfig{Names: names})
-	c.Count("table_rows", len(leaves))
-	isInvalidArg := func(s *an.Sym) bool {
-		return strings.Contains(s.S, fmt.Sprintf("status.Errorf(%d,", an.CodeInvalidArgument)) || strings.Contains(s.S, fmt.Sprintf("status.Error(%d,", an.CodeInvalidArgument))
+	fieldTest := func(e an.CondEdge, field string, wantNonNil bool) bool {
+		x, trueMeansNil, ok := an.NilTest(e.If.Cond)
+		if !ok {
+			return false
+		}
+		if _, _, f, isF := an.FieldOf(x); !isF || f != field {
+			return false
+		}
+		return (e.Branch != trueMeansNil) == wantNonNil
 	}
-	var validAtom, lenAtom string
-	for _, l := range leaves {
-		for a := range l.AssignM {
-			if strings.Contains(a, "IsValid(f.updateMask") {
-				validAtom = a
+	var unknownRej, readOnlyRej []*ssa.Return
+	badCode := ""
+	for _, r := range an.Returns(fn) {
+		if provablyNilAt(r.Results[0], r) {
+			continue
+		}
+		var hasU, hasW, hasReset, invalidEdge bool
+		for _, e := range an.GuardingEdges(r) {
+			if fieldTest(e, "updateMask", true) {
+				hasU = true
 			}
-			if strings.Contains(a, "len(") && strings.Contains(a, "f.updateMask.Paths") {
-				lenAtom = a
+			if fieldTest(e, "writableFields", true) {
+				hasW = true
+			}
+			if fieldTest(e, "resetMask", true) {
+				hasReset = true
+			}
+			if call, ok := e.If.Cond.(*ssa.Call); ok && strings.HasSuffix(an.CalleeName(call), "FieldMask).IsValid") && !e.Branch {
+				if _, _, f, isF := an.FieldOf(call.Call.Args[0]); isF && f == "updateMask" {
+					invalidEdge = true
+				}
 			}
 		}
-	}
-	if validAtom == "" || lenAtom == "" {
-		c.Bad(rule, name+"|table", fn.Pos(), fmt.Sprintf("Validate does not test the update mask's validity (%q) and the size of its intersection with the writable fields (%q)", validAtom, lenAtom))
-		return
-	}
-	okNil, okInvalid, okRO, okPass := true, true, true, true
-	n := 0
-	for _, l := range leaves {
-		if l.Undec != "" || l.Panics {
-			c.Unk(rule, name+"|table", fn.Pos(), "table not extracted: "+l.Undec)
-			return
+		if hasReset && !hasU {
+			continue // server-side reset mask problems are not client errors
 		}
-		n++
-		ret := l.Returns[0]
-		um := l.Get("f.updateMask==nil")
-		resetTrouble := l.Get("f.resetMask==nil") == "false" && ret.K != "nil"
+		cd, isSt := statusCodeOf(c, r.Results[0])
+		if !isSt || cd != an.CodeInvalidArgument {
+			badCode = c.Prog.Rel(r.Pos())
+		}
 		switch {
-		case um == "true":
-			if ret.K != "nil" && !resetTrouble {
-				okNil = false
-			}
-		case l.Get(validAtom) == "false":
-			if !isInvalidArg(ret) {
-				okInvalid = false
-			}
-		case l.Get("f.writableFields==nil") == "false" && lenEq(l, lenAtom) == "false":
-			if !isInvalidArg(ret) {
-				okRO = false
-			}
-		default:
-			if ret.K != "nil" && !resetTrouble {
-				okPass = false
-			}
+		case hasU && invalidEdge:
+			unknownRej = append(unknownRej, r)
+		case hasU && hasW:
+			readOnlyRej = append(readOnlyRej, r)
 		}
 	}
-	c.Check(okNil, rule, name+"|no update mask: accepted", fn.Pos(), "", "a write without update mask is rejected")
-	c.Check(okInvalid, rule, name+"|unknown paths: InvalidArgument", fn.Pos(), "", "an update mask naming unknown fields is not rejected with InvalidArgument")
-	c.Check(okRO, rule, name+"|paths outside the writable fields: InvalidArgument", fn.Pos(), "", "an update mask naming read-only fields (intersection smaller than the mask) is not rejected with InvalidArgument")
-	c.Check(okPass, rule, name+"|valid writable mask: accepted", fn.Pos(), fmt.Sprintf("%d rows", n), "a valid mask inside the writable fields is rejected")
-	// the intersection compared is writable ∩ update mask: fullMask() result
-	uses := false
-	for _, l := range leaves {
-		for _, r := range l.Recs {
-			if strings.HasSuffix(r.Callee, "FieldUpdater).fullMask") {
-				uses = true
+	c.Check(badCode == "", rule, name+"|rejections are InvalidArgument", fn.Pos(), "", "an update mask rejection at "+badCode+" does not carry codes.InvalidArgument")
+	c.Check(len(unknownRej) > 0, rule, name+"|unknown paths: InvalidArgument", fn.Pos(), "", "no rejection guarded by !updateMask.IsValid(message): masks naming unknown fields are accepted")
+	if len(readOnlyRej) == 0 {
+		c.Bad(rule, name+"|paths outside the writable fields: InvalidArgument", fn.Pos(), "no rejection that depends on both the update mask and the writable fields: masks naming read-only fields are accepted")
+	}
+	for _, r := range readOnlyRej {
+		// the deciding condition depends on both masks and is not a mere comparison of path counts
+		var deciding *ssa.If
+		for _, e := range an.GuardingEdges(r) {
+			if _, _, isNil := an.NilTest(e.If.Cond); isNil {
+				continue
+			}
+			if deciding == nil || deciding.Block().Dominates(e.If.Block()) {
+				deciding = e.If
 			}
 		}
+		cons := name + "|paths outside the writable fields: InvalidArgument"
+		if deciding == nil {
+			c.Bad(rule, cons, r.Pos(), "the read-only rejection does not depend on the masks' paths")
+			continue
+		}
+		cardinality := false
+		if bo, ok := deciding.Cond.(*ssa.BinOp); ok {
+			isLen := func(v ssa.Value) bool {
+				call, ok := v.(*ssa.Call)
+				return ok && an.CalleeName(call) == "builtin len"
+			}
+			if isLen(bo.X) && isLen(bo.Y) {
+				cardinality = true
+			}
+		}
+		// data dependence on both masks: walk operands backwards
+		depU, depW := false, false
+		seen := map[ssa.Value]bool{}
+		var walk func(v ssa.Value, depth int)
+		walk = func(v ssa.Value, depth int) {
+			if v == nil || seen[v] || depth > 12 {
+				return
+			}
+			seen[v] = true
+			if _, _, f, ok := an.FieldOf(v); ok {
+				if f == "updateMask" {
+					depU = true
+				}
+				if f == "writableFields" {
+					depW = true
+				}
+			}
+			if call, ok := v.(*ssa.Call); ok && strings.HasSuffix(an.CalleeName(call), "FieldUpdater).fullMask") {
+				depU, depW = true, true
+			}
+			if in, ok := v.(ssa.Instruction); ok {
+				var ops []*ssa.Value
+				for _, op := range in.Operands(ops) {
+					if op != nil && *op != nil {
+						walk(*op, depth+1)
+					}
+				}
+			}
+		}
+		walk(deciding.Cond, 0)
+		c.Check(depU && depW && !cardinality, rule, cons, deciding.Pos(), "the rejection depends on the update mask's and the writable fields' paths",
+			fmt.Sprintf("the read-only test depends on update mask: %v, writable fields: %v, is a comparison of path counts: %v - equal cardinality of the mask and of its intersection with the writable fields does not mean every path is writable (e.g. {a, b} against writable {a.x, a.y}: the read-only b is accepted and then cleared)", depU, depW, cardinality))
 	}
-	c.Check(uses && strings.Contains(lenAtom, "fullMask"), rule, name+"|read-only test compares the mask with its writable intersection", fn.Pos(), lenAtom, "the read-only test does not compare len(intersection) with len(update mask)")
+	// a write without update mask is accepted: the nil edge leads to a nil return without passing a rejection
+	okNil := false
+	for _, b := range fn.Blocks {
+		iff, ok := b.Instrs[len(b.Instrs)-1].(*ssa.If)
+		if !ok {
+			continue
+		}
+		e := an.CondEdge{If: iff, Branch: true}
+		if !fieldTest(e, "updateMask", false) {
+			e.Branch = false
+			if !fieldTest(e, "updateMask", false) {
+				continue
+			}
+		}
+		t, _ := an.PathQuery{Target: func(in ssa.Instruction) bool {
+			r, isR := in.(*ssa.Return)
+			return isR && provablyNilAt(r.Results[0], r)
+		}}.FromBlock(e.Target())
+		if t != nil {
+			okNil = true
+		}
+	}
+	c.Check(okNil, rule, name+"|no update mask: accepted", fn.Pos(), "", "a write without update mask cannot pass validation")
 }
 
 // lenEq evaluates the comparison atom "a==b"/"(a != b)" style produced for the length test:
@@ -486,6 +558,31 @@ func r055(c *an.Ctx, rule string) {
 			okClear = true
 		}
 	})
+	// a field is cleared as a whole only when the mask names the whole field (no nested paths below it)
+	wholeOnly := false
+	an.Instrs(cb, func(in ssa.Instruction) {
+		call, ok := in.(*ssa.Call)
+		if !ok || !call.Call.IsInvoke() || call.Call.Method.Name() != "Clear" {
+			return
+		}
+		for _, e := range an.GuardingEdges(call) {
+			bo, isBO := e.If.Cond.(*ssa.BinOp)
+			if !isBO {
+				continue
+			}
+			for _, pair := range [][2]ssa.Value{{bo.X, bo.Y}, {bo.Y, bo.X}} {
+				lc, isLen := pair[0].(*ssa.Call)
+				k, isC := an.ConstInt(pair[1])
+				if isLen && an.CalleeName(lc) == "builtin len" && isC && k == 0 && strings.Contains(lc.Call.Args[0].Type().String(), "NestedMask") {
+					if (bo.Op == token.EQL && e.Branch) || (bo.Op == token.NEQ && !e.Branch) || (bo.Op == token.GTR && !e.Branch) {
+						wholeOnly = true
+					}
+				}
+			}
+		}
+	})
+	c.Check(wholeOnly, rule, name+"|a whole field is cleared only when the mask names the whole field", cb.Pos(), "Clear guarded by an empty nested mask",
+		"dst.Clear(field) is not guarded by `the mask has no paths below this field`: a mask naming only part of a message field (a.b) clears all of a when the written message lacks it, including parts outside the mask")
 	c.Check(okClear, rule, name+"|clears exactly the masked fields that src lacks", cb.Pos(), "Clear guarded by mask[field] present and !src.Has(field)",
 		"dst fields are cleared without checking that the mask names them and that the written message lacks them")
 }
